@@ -115,6 +115,10 @@ def reopen_and_judge(res, FHS, root, created, given, populated, contents_bytes, 
 def run_shard(mode, cfgs, sub_seed):
     res = ShardResult()
     FHS = load_repo()["FileHashStore"]
+    import hashstore as _hs_pkg
+
+    def via_factory(given):
+        return _hs_pkg.HashStoreFactory.get_hashstore("hashstore.filehashstore", "FileHashStore", given)
     rng = random.Random(sub_seed)
     scratch = new_scratch("c14")
     cb = {"A": make_content(141, 5000), "B": make_content(142, 10)}
@@ -197,6 +201,11 @@ def run_shard(mode, cfgs, sub_seed):
                     cases.append((g, "none-key"))
                 for given, note in cases:
                     reopen_and_judge(res, FHS, root, created, given, populated, cb, note)
+                # the documented way of obtaining a store is the factory: the same verdicts must come out of it, also
+                # for the second, third ... request for ONE path in ONE process
+                for given, note in cases[::3] + [(props(root, d, w, a, ns), "same")]:
+                    reopen_and_judge(res, via_factory, root, created, given, populated, cb, note + ":factory")
+                    res.count("reopens_through_the_factory")
                 # the same configuration written the way another implementation / a person would (other key order,
                 # comments, an extra key): still the pinned configuration
                 ypath = os.path.join(root, "hashstore.yaml")
@@ -218,6 +227,19 @@ def run_shard(mode, cfgs, sub_seed):
                 for given, note in ((props(root, d, w, a, ns), "no-yaml:same"), (props(root, 2, 2, "MD5", ns), "no-yaml:other")):
                     reopen_and_judge(res, FHS, root, ("no-yaml",), given, populated, cb, note)
                 rmtree(root)
+                # a store created anew at a path where another one lived in this process: its own configuration is pinned
+                d2, w2 = d % 3 + 1, w % 3 + 1
+                a2 = [x for x in STORE_ALGOS if x != a][0]
+                for opener, tag_ in ((via_factory, "factory"), (FHS, "class")):
+                    out = call(opener, props(root, d2, w2, a2, ns))
+                    res.evaluations += 1
+                    if not out.ok or not os.path.isfile(os.path.join(root, "hashstore.yaml")):
+                        res.violation({"symptom": "store-recreated-at-a-used-path-has-no-configuration", "via": tag_, "got": out.brief()},
+                                      {"engine": "C14", "created": [d2, w2, a2, ns], "note": "recreate", "outcome": out.brief(), "msg": out.msg})
+                    else:
+                        reopen_and_judge(res, opener, root, (d2, w2, a2, ns), props(root, d2, w2, a2, ns), False, cb, "same:recreated:" + tag_)
+                        reopen_and_judge(res, opener, root, (d2, w2, a2, ns), props(root, d, w, a, ns), False, cb, "double:recreated:" + tag_)
+                    rmtree(root)
                 # store data without a configuration file where only ONE of the three data directories exists
                 for sub in ("objects", "metadata", "refs"):
                     pd = os.path.join(scratch, "partial")
